@@ -297,6 +297,11 @@ def recount(out, prefix, gene_strategy, transcript_strategy, mono_isoforms, n_un
                     errs.append(("duplicate-row", "transcript_model table lists %s %d times" % (f, len(vals))))
                 if abs(v) > 1e-9 and abs(v - sums.get(f, 0.0)) > 0.011:
                     errs.append(("model-value-not-sum", "transcript_model %s = %.2f but transcript_model_reads gives %.2f" % (f, v, sums.get(f, 0.0))))
+            # reads listed with '*' only (assigned to no model) are the table's __no_feature line, whatever region they came from
+            n_star = sum(1 for rid, tids in per.items() if all(t == "*" for t in tids))
+            nof = [int(float(x[0])) for k, v in table.items() if k == "__no_feature" for x in v]
+            if nof and nof[0] != n_star:
+                errs.append(("model-stat-no-feature", "transcript_model __no_feature %d, transcript_model_reads lists %d reads without a model" % (nof[0], n_star)))
             errs += tpm_errors(out, prefix, "transcript_model")
     return errs
 
